@@ -80,6 +80,8 @@ pub mod reader;
 pub mod request;
 pub mod util;
 pub mod value;
+#[cfg(kani)]
+pub mod verif_shim;
 
 pub mod prelude {
     //!
